@@ -119,7 +119,10 @@ def gen_hetero(scn, rng):
     return hist
 
 
-def gen_random(scn, rng, depth):
+def gen_random(scn, rng, depth, topology=False):
+    """(topology: racks are also taken out of / put back into the cell - only for the
+    master-level checks; the scheduler-level properties range over servers coming,
+    going and changing state, not over the cell's bucket list)"""
     apps, hist = [], []
     servers = {s: i for s, i in scn['server_init'].items()}
     up = {s for s, i in servers.items() if i}
@@ -181,6 +184,8 @@ def gen_random(scn, rng, depth):
             hist.append(('NodeUp', [s, rng.randrange(len(scn['sprofiles'])) + 1]))
         elif r < 0.675 and exists:
             hist.append(('SetPartition', [rng.choice(sorted(exists)), rng.choice(['_default', 'pB'])]))
+        elif r < 0.69 and not topology:
+            hist.append(('SetPartition', [rng.choice(sorted(exists or servers)), rng.choice(['_default', 'pB'])]))
         elif r < 0.69:
             # an administrator takes a rack out of the cell / puts it back
             rack = rng.choice(sorted(scn['racks']))
